@@ -1,0 +1,6 @@
+//go:build !verif
+
+package verifhook
+
+// Point is a no-op unless built with -tags verif.
+func Point(string, ...any) {}
